@@ -274,8 +274,11 @@ func VerifHeaderParse(d []byte, p int, dl int, l int) {}
 //@ spec countLess(o Options, id int, n int) bool = 0 <= n && n <= len(o) && (forall i int :: {o[i].ID} 0 <= i && i < len(o) ==> ((i < n) <==> o[i].ID < id))
 //
 //@ func (Options) Remove(id OptionID) (r Options)
+//@   ghost gbuf []byte
 //@   requires sortedOpts(options)
 //@   modifies options[0 : len(options)]
+//@   requires [ghost] forall j int :: {options[j].ID} 0 <= j && j < len(options) ==> disjoint(options[j].Value, gbuf)
+//@   ensures [clear-kept] forall j int :: {r[j].ID} 0 <= j && j < len(r) ==> disjoint(r[j].Value, gbuf)
 //@   ensures [same-array] r[0:0] == options[0:0] && cap(r) == cap(options) && len(r) <= len(options)
 //@   witness f = idxPre
 //@   witness l = idxPost
@@ -287,6 +290,7 @@ func VerifHeaderParse(d []byte, p int, dl int, l int) {}
 //@     invariant forall k int :: {options[k].ID} 0 <= k && k < idxPre ==> options[k] == old(options[k])
 //@     invariant forall k int :: {options[k].ID} idxPre <= k && k < updateIdx ==> options[k] == old(options[k + (idxPost - idxPre)])
 //@     invariant forall k int :: {options[k].ID} updateIdx <= k && k < len(options) ==> options[k] == old(options[k])
+//@     invariant [clear-kept] forall k int :: {options[k].ID} 0 <= k && k < len(options) ==> disjoint(options[k].Value, gbuf)
 //@     decreases len(options) - i
 //
 // Add: the new option goes after every option whose ID is <= its ID (insertion order among equals);
